@@ -160,20 +160,23 @@ theorem C09_precedence (facts : String → TokenFacts) (m : MTCfg) (now : Int) (
 /-- gin's chain construction (`Use` appends to the engine/group handlers, `Group` copies
 them, a route captures them at registration, `NoRoute`/`Use` rebuild the no-route chain
 from the engine handlers): if, in a constructor's registration table, only engine-level
-`Use` calls precede `Use(auth)` on the engine and `Use(auth)` sits under the guard `ga`
-alone, then whenever `ga` holds — for every valuation of all other guards — there is a fixed
+`Use` calls **of the observing middleware `Gin.passiveHandlers` (panic recovery)** precede
+`Use(auth)` on the engine and `Use(auth)` sits under the guard `ga` alone, then whenever `ga` holds — for every valuation of all other guards — there is a fixed
 list `P` of handlers (those `Use`d before it: the panic recovery) such that **every** route's
 chain is `P ++ [auth] ++ … ++ [handler]` and the no-route chain is
 `P ++ [auth] ++ … ++ noRoute handlers`: nothing but `P` ever runs ahead of the middleware. -/
 theorem C09_chain (auth : Gin.H) (ga : String) (tbl : List Gin.GEv) (on : String → Bool)
     (hshape : Gin.authFirstG auth ga tbl = true) (hon : on ga = true) :
     ∃ P : List Gin.H,
+      (∀ x ∈ P, x ∈ Gin.passiveHandlers) ∧
       (∀ r ∈ (Gin.build (Gin.enabled on tbl)).routes, ∃ mid h, r.chain = P ++ [auth] ++ mid ++ [h]) ∧
       (∃ rest, (Gin.build (Gin.enabled on tbl)).allNoRoute =
         P ++ [auth] ++ rest ++ (Gin.build (Gin.enabled on tbl)).noRoute) := by
   have h1 := Gin.authFirst_of_G auth ga on hon tbl hshape
-  obtain ⟨P, hi⟩ := Gin.authFirst_inv auth (Gin.enabled on tbl) {} rfl rfl rfl h1
-  refine ⟨P, hi.rts, ?_⟩
+  obtain ⟨P, hP, hi⟩ := Gin.authFirst_inv auth (Gin.enabled on tbl) {} rfl rfl rfl h1
+  have hpass : ∀ x ∈ P, x ∈ Gin.passiveHandlers := by
+    rw [hP]; simpa using Gin.preAuth_passive_of_G auth ga on hon tbl hshape
+  refine ⟨P, hpass, hi.rts, ?_⟩
   obtain ⟨rest, hr⟩ := hi.eng
   exact ⟨rest, by unfold Gin.build; rw [hi.nor, ← hr]⟩
 
@@ -206,6 +209,7 @@ theorem C09_chain_servers (tbl : List Gin.GEv)
     (htbl : Gin.proxyTable = some tbl ∨ Gin.upstreamTable = some tbl ∨ Gin.adminFullTable = some tbl)
     (on : String → Bool) (hon : on Gin.authGuard = true) :
     ∃ P : List Gin.H,
+      (∀ x ∈ P, x ∈ Gin.passiveHandlers) ∧
       (∀ r ∈ (Gin.build (Gin.enabled on tbl)).routes,
         ∃ mid h, r.chain = P ++ [Gin.authHandler] ++ mid ++ [h]) ∧
       (∃ rest, (Gin.build (Gin.enabled on tbl)).allNoRoute =
@@ -246,7 +250,7 @@ theorem C09_reject_401_partial (tbl : List Gin.GEv)
     (hnotsr : ∀ c, Gin.dispatch (Gin.build (Gin.enabled on tbl)) method path ≠ .redirect c) :
     ∃ reason, Gin.respond (Gin.build (Gin.enabled on tbl)) Gin.authHandler
       (denyOf (authorize facts m now r)) method path = .aborted 401 reason := by
-  obtain ⟨P, hroutes, rest, hnr⟩ := C09_chain_servers tbl htbl on hon
+  obtain ⟨P, _, hroutes, rest, hnr⟩ := C09_chain_servers tbl htbl on hon
   rcases C09_reject_401 facts m hwf now r with ⟨t, ht⟩ | ⟨reason, hr, _⟩
   · exact absurd ht (hrej t)
   · refine ⟨reason, ?_⟩
